@@ -96,10 +96,20 @@ def _run_base(ctx):
     fn = repo.func(GF + ':_get_diff_entry_stream')
     fid = GF + ':_get_diff_entry_stream'
     g = CFG(fn)
-    params = [a.arg for a in fn.args.args]
+    params = [a.arg for a in fn.args.args + fn.args.kwonlyargs]
     if len(params) < 3:
         raise AnalysisError('_get_diff_entry_stream signature changed')
-    p_path, p_blob, p_ref = params[0], params[1], params[2]
+    # roles by use, not by position: the path is what is tested for the notebook suffix, the blob is what is read, the ref is what
+    # is compared with the working-tree marker
+    def _role(pred):
+        hits = [p_ for p_ in params if any(pred(n, p_) for n in ast.walk(fn))]
+        return hits[0] if len(hits) == 1 else None
+    p_path = _role(lambda n, p_: isinstance(n, ast.Call) and isinstance(n.func, ast.Attribute) and n.func.attr == 'endswith' and dotted(n.func.value) == p_)
+    p_blob = _role(lambda n, p_: isinstance(n, ast.Attribute) and n.attr == 'data_stream' and dotted(n.value) == p_)
+    p_ref = _role(lambda n, p_: isinstance(n, ast.Compare) and dotted(n.left) == p_ and isinstance(n.ops[0], (ast.Is, ast.Eq)) and
+                  (dotted(n.comparators[0]) or '').endswith('GitRefWorkingTree'))
+    if None in (p_path, p_blob, p_ref):
+        raise AnalysisError('_get_diff_entry_stream: the path / blob / ref parameters could not be told apart by their use')
     rets = [n for n in walk_no_nested(fn) if isinstance(n, ast.Return)]
     none_rets = [r for r in rets if r.value is None or (isinstance(r.value, ast.Constant) and r.value.value is None)]
     if not none_rets:
@@ -140,7 +150,6 @@ def _run_base(ctx):
              'a missing blob (added/deleted file) maps to the null file' if ok else
              'a missing blob does not map to the null file', r)
     # what is returned when the path is empty/None: every return that is not behind "path is truthy" (whatever the layout: if-nesting or guard clauses)
-    p_path = param_names(fn)[0]
     is_path = lambda e: isinstance(e, ast.Name) and e.id == p_path
     falsy_rets = []
     for r_ in [n for n in walk_no_nested(fn) if isinstance(n, ast.Return)]:
@@ -175,12 +184,10 @@ def _run_base(ctx):
     for a in stream_assigns:
         var = a.targets[0].id if isinstance(a.targets[0], ast.Name) else None
         # positional or keyword call: bind against the callee's parameter order
-        gparams = param_names(repo.func(GF + ':_get_diff_entry_stream'))
-        args = list(a.value.args)
-        kwmap = {k.arg: k.value for k in a.value.keywords if k.arg}
-        for pn in gparams[len(args):3]:
-            if pn in kwmap:
-                args.append(kwmap[pn])
+        gparams = [a_.arg for a_ in fn.args.args]
+        bound = dict(zip(gparams, a.value.args))
+        bound.update({k.arg: k.value for k in a.value.keywords if k.arg})
+        args = [bound[r_] for r_ in (p_path, p_blob, p_ref) if r_ in bound]
         side_letters = set()
         for x in args[:2]:
             d = dotted(x) or ''
